@@ -3,11 +3,16 @@
    to Z (that function is then tied to the code by the correspondence runs only). *)
 From Coq Require Import ZArith NArith List Bool.
 Import ListNotations.
-From CB Require Import Word PStream PEnc PMem.
+From CB Require Import Word PStream PEnc PMem PUtf8 PHalfShape PStackGuard.
+From CBGen Require Import Gen_config.
 Local Open Scope Z_scope.
 Definition wrapz (w : Z) (x : Z) : Z := x mod 2 ^ w.
 Definition b2z (b : bool) : Z := if b then 1 else 0.
 Definition nz (x : Z) : bool := negb (x =? 0).
+(* every loop of a translated function: the state is the tuple of the locals the body assigns (sorted by
+   name); when the fuel runs out the state reached so far is returned *)
+Fixpoint wloop {S : Type} (fuel : nat) (cond : S -> bool) (body : S -> S) (s : S) : S :=
+  match fuel with O => s | S f => if cond s then wloop f cond body (body s) else s end.
 
 Fixpoint idx (i : Z) (l : list Z) : list (Z * Z) := match l with [] => [] | x :: r => (i, x) :: idx (i + 1) r end.
 Definition indexed (l : list Z) : list (Z * Z) := idx 0 l.
@@ -59,3 +64,48 @@ Definition fbcbor_encode_indef_map_start (s : Z) := zres (enc_byte 191 (Z.to_N s
 Definition fbcbor_encode_null (s : Z) := zres (enc_byte 246 (Z.to_N s)).
 Definition fbcbor_encode_undef (s : Z) := zres (enc_byte 247 (Z.to_N s)).
 Definition fbcbor_encode_break (s : Z) := zres (enc_byte 255 (Z.to_N s)).
+
+(* ---- second wave: floats as bit patterns, signed narrowing, allocator requests ---- *)
+(* conversion to a signed type of w bits (two's complement, what gcc/clang define) *)
+Definition swrapz (w : Z) (x : Z) : Z := (x + 2 ^ (w - 1)) mod 2 ^ w - 2 ^ (w - 1).
+(* isnan(value) on the IEEE-754 bit pattern of a float / double parameter *)
+Definition isnan32 (v : Z) : bool := ((v / 2 ^ 23) mod 256 =? 255) && negb (v mod 2 ^ 23 =? 0).
+Definition isnan64 (v : Z) : bool := ((v / 2 ^ 52) mod 2048 =? 2047) && negb (v mod 2 ^ 52 =? 0).
+
+(* _cbor_alloc_multiple / _cbor_realloc_multiple: Some n = the allocator is asked for n bytes,
+   None = NULL is returned without a request *)
+Definition fb_cbor_alloc_multiple (a b : Z) : option Z := option_map Z.of_N (alloc_multiple_req 64 (Z.to_N a) (Z.to_N b)).
+Definition fb_cbor_realloc_multiple (a b : Z) : option Z := option_map Z.of_N (alloc_multiple_req 64 (Z.to_N a) (Z.to_N b)).
+(* float encoders on the bit pattern of the value; cbor_encode_half in ub mode (None = undefined shift) *)
+Definition fbcbor_encode_single (v s : Z) := zres (encode_single (Z.to_N v) (Z.to_N s)).
+Definition fbcbor_encode_double (v s : Z) := zres (encode_double (Z.to_N v) (Z.to_N s)).
+Definition fbcbor_encode_half (v s : Z) : option (Z * list (Z * Z)) := option_map zres (encode_half (Z.to_N v) (Z.to_N s)).
+
+(* ---- unicode.c ---- *)
+(* utf8d[i] *)
+Definition tblz (t : list N) (i : Z) : Z := Z.of_N (nth (Z.to_nat i) t 0%N).
+(* _cbor_unicode_decode(&state, &codep, byte): Some (return value, *state, *codep), None = undefined
+   behaviour (a read outside utf8d, an undefined shift).  The model does not compute *codep. *)
+Definition fb_cbor_unicode_decode (st cp b : Z) : option (Z * Z * Z) :=
+  option_map (fun s => (Z.of_N s, Z.of_N s, cp)) (unicode_decode utf8d (Z.to_N st) (Z.to_N b)).
+(* _cbor_unicode_codepoint_count(source, source_length, &status): Some (return value, status.status,
+   status.location); [u_] gives the indeterminate initial values of uninitialised locals.  The model does
+   not compute status.location. *)
+Definition bytes_of (src : Z -> Z) (n : Z) : list N := map (fun i => Z.to_N (src (Z.of_nat i))) (seq 0 (Z.to_nat n)).
+Definition zcount (r : option (N * bool)) : option (Z * Z) :=
+  match r with
+  | None => None
+  | Some (c, true) => Some (Z.of_N c, 0)
+  | Some (_, false) => Some (0, 1)
+  end.
+Definition fb_cbor_unicode_codepoint_count (src : Z -> Z) (n : Z) (u_ : Z -> Z) : option (Z * Z * Z) :=
+  option_map (fun r => (fst r, snd r, 0)) (zcount (codepoint_count utf8d (bytes_of src n))).
+
+(* ---- loaders.c: _cbor_decode_half, result rendered symbolically (PHalfShape.fval) ---- *)
+Definition fb_cbor_decode_half (src : Z -> Z) : fval := decode_half_shape (be_val [Z.to_N (src 0); Z.to_N (src 1)]).
+
+(* ---- stack.c: _cbor_stack_push as (request, NULL returned, new stack->size), the allocator's answer an input ---- *)
+Definition zoutcome (r : option N * bool * N) : option Z * bool * Z :=
+  (option_map Z.of_N (fst (fst r)), snd (fst r), Z.of_N (snd r)).
+Definition fb_cbor_stack_push (size : Z) (granted : bool) : option Z * bool * Z :=
+  zoutcome (stack_push_outcome gen_CBOR_MAX_STACK_SIZE gen_sizeof_rec (Z.to_N size) granted).
